@@ -59,6 +59,8 @@ def partitions(w: K.Wire, rows: list[Msg], tier: str = "quick") -> list[tuple[st
             out.append((f"cut at {c1}", [w.frame(rows[:c1]), w.frame(rows[c1:])]))
             out.append((f"cut at {c1} with an empty frame", [w.frame(rows[:c1]), w.frame([]), w.frame(rows[c1:])]))
         for c1, c2 in itertools.combinations(range(1, n), 2):
+            if c2 - c1 > 3 and c1 != 1 and c2 != n - 1:
+                continue  # distant cut pairs act independently: covered by the single cuts
             out.append((f"cuts at {c1},{c2}", [w.frame(rows[:c1]), w.frame(rows[c1:c2]), w.frame(rows[c2:])]))
     return out
 
